@@ -190,6 +190,13 @@ CONTRACTS = [
              note="connect() cannot hang: a timer that cancels the summary Deferred is armed (that the reactor fires it is "
                   "Twisted's business)"),
     # ------------------------------------------------------------------ exactly one winner among the contenders
+    Contract(T + "_ThereCanBeOnlyOne.__init__", props=[PROP], params={"contenders": f"seq[{DEFERRED}]"}, self_fields={},
+             modifies=["_remaining", "_winner_d", "_first_success", "_first_failure", "_have_winner", "_fired"],
+             ensures=[("every-contender-is-tracked-from-the-start",
+                       f"forall(lambda x: (x in self._remaining) == seq_has(contenders, x), '{DEFERRED}')"),
+                      ("nothing-decided-yet", "not self._have_winner and not self._fired and self._first_success is None")],
+             note="Deferred.addCallbacks on an already-fired contender runs _succeeded synchronously inside run(): the losers can "
+                  "only be cancelled then if every contender was already in _remaining before run() attaches the first callback"),
     Contract(T + "_ThereCanBeOnlyOne._remove", props=[PROP], params={"res": "opaque[Any]", "d": DEFERRED},
              self_fields={"_remaining": f"set[{DEFERRED}]"}, modifies=["_remaining"], returns="opaque[Any]",
              raises_exactly={"KeyError": "d not in self._remaining"},
